@@ -54,6 +54,7 @@ type schedCfg struct {
 	mmapAll     bool
 	burst       bool
 	slowClose   bool
+	closeErr    int // 1/n, 0 = never
 }
 
 type schedReq struct {
@@ -155,6 +156,7 @@ func drawSchedCfg(tier string) schedCfg {
 	c.burst = d("burst", 3) == 0
 	c.slowClose = d("slowclose", 2) == 0
 	c.allocLag = d("alloc-lag?", 2) == 0
+	c.closeErr = []int{0, 0, 3}[d("close-err?", 3)]
 	if d("faultfree", 5) == 0 {
 		c.pingFail, c.loadFail = 0, 0
 	}
@@ -570,6 +572,7 @@ func runSched(t *testing.T, tape *verifsim.Tape, prop, tier string, keepLog bool
 		w.now = sim.Now
 		w.pingFail = cfg.pingFail
 		w.slowClose = cfg.slowClose
+		w.closeErr = cfg.closeErr
 		w.onClose = w.closed
 		w.models = schedModels(cfg.nModels)
 		w.buildInventory()
